@@ -275,3 +275,17 @@ package dvid
 //@   prop C17
 //@   requires size[0] > 0 && size[1] > 0 && size[2] > 0
 //@   ensures result[0] == fmod(p[0], size[0]) && result[1] == fmod(p[1], size[1]) && result[2] == fmod(p[2], size[2])
+
+// RLEs.FitToBounds returns a copy clipped to the optional bounds: with no bounds the copy equals the
+// input; with bounds, every returned run lies inside them (y, z of the row and the whole x extent).
+//@ func RLEs.FitToBounds
+//@   prop C18
+//@   requires forall k int :: {rles[k]} 0 <= k && k < len(rles) ==> rlewf(rles[k]) && rles[k].length >= 1
+//@   modifies nothing
+//@   invariant loop 1: len(newRLEs) <= rangeindex + 1
+//@   invariant loop 1: fresh(newRLEs)
+//@   invariant loop 1: forall k int :: {newRLEs[k]} 0 <= k && k < len(newRLEs) ==> newRLEs[k].length >= 1 && rlewf(newRLEs[k])
+//@   invariant loop 1: forall k int :: {newRLEs[k]} 0 <= k && k < len(newRLEs) ==> !outsideB(bounds, newRLEs[k].start[0], newRLEs[k].start[1], newRLEs[k].start[2])
+//@   invariant loop 1: forall k int :: {newRLEs[k]} 0 <= k && k < len(newRLEs) ==> !outsideB(bounds, newRLEs[k].start[0] + newRLEs[k].length - 1, newRLEs[k].start[1], newRLEs[k].start[2])
+//@   ensures bounds == nil ==> len(result) == len(rles) && (forall k int :: 0 <= k && k < len(rles) ==> result[k] == rles[k])
+//@   ensures bounds != nil ==> len(result) <= len(rles) && (forall k int :: {result[k]} 0 <= k && k < len(result) ==> result[k].length >= 1 && !outsideB(bounds, result[k].start[0], result[k].start[1], result[k].start[2]) && !outsideB(bounds, result[k].start[0] + result[k].length - 1, result[k].start[1], result[k].start[2]))
